@@ -11,10 +11,10 @@ TECHNIQUE = ("TLA+ specification of the move as one atomic range copy with a fra
              "configurations/requests in the bounds and checks ExactCopy/FifoOneAck/ConfigIndependent on the spec; "
              "each behaviour is replayed on the real mem/datamover between two idealmemcontroller instances and both "
              "memories are compared byte for byte at every acknowledgment")
-LEVEL_TEXT = ("exhaustive over the bounded configuration space (sides x granularities {4,8,16} and {64,128,256} x buffer "
+LEVEL_TEXT = ("exhaustive over the bounded configuration space (sides x granularities {4,8,12,16} and {64,128,192,256} x buffer "
               "sizes x aligned addresses x sizes incl. 0 and non-multiples of either granularity, 1-2 requests queued or "
               "sequential); every case executed on the real component")
-LEVEL_NOTE = ("Granularities 64/128/256 are reached by replaying each behaviour with a cell = 16 bytes, so sizes at that scale "
+LEVEL_NOTE = ("Granularities 64/128/192/256 are reached by replaying each behaviour with a cell = 16 bytes, so sizes at that scale "
               "are multiples of 16. Memory latencies and port buffer sizes of the surrounding assembly are drawn from the "
               "seed, not enumerated. Requests queued together are judged sequentially (see assumptions).")
 
